@@ -434,11 +434,14 @@ func (ts *typestate) checkNoPanic(rule string) {
 func (ts *typestate) checkAuthPath(rule string) {
 	r := ts.r
 	for _, s := range ts.states {
+		// a predicate that depends on untracked state is treated as possibly true
 		cr, ok1 := ts.evalBool(ts.canReceive, s)
 		cs, ok2 := ts.evalBool(ts.canSend, s)
-		if !ok1 || !ok2 {
-			r.Undecided(rule, "predicates in "+s.String(), "-", "canSend/canReceive not pure")
-			continue
+		if !ok1 {
+			cr = true
+		}
+		if !ok2 {
+			cs = true
 		}
 		if !cr && !cs {
 			continue
